@@ -85,8 +85,14 @@ func (cm *MemClientMgr) Add(cc *ClientConn) {
 	cm.mu.Lock()
 	defer cm.mu.Unlock()
 
-	cm.nextClientID.Add(1)
-	binary.BigEndian.PutUint16(cc.ID[:], uint16(cm.nextClientID.Load()))
+	// IDs are 16 bits on the wire and the counter wraps: skip 0 (never a valid user ID) and any ID still
+	// held by a connected client, so that a newcomer cannot replace a live user in the table.
+	for {
+		binary.BigEndian.PutUint16(cc.ID[:], uint16(cm.nextClientID.Add(1)))
+		if _, inUse := cm.clients[cc.ID]; !inUse && cc.ID != (ClientID{}) {
+			break
+		}
+	}
 
 	cm.clients[cc.ID] = cc
 }
